@@ -295,11 +295,6 @@ Qed.
 
 (* the one hypothesis: the connection a response is delivered into belongs to the client whose
    request the response answers (false exactly in the known defect class) *)
-Definition send_okb (g : cfg) (s : state) (r : rloanrec) : bool :=
-  match act_conn (server_reclaim (server_sync g s (rl_sv r)) (rl_sv r)) (rl_sv r) (rl_idx r) with
-  | Some k => N.eqb (k_cl k) (p_ocl (rl_msg r))
-  | None => true
-  end.
 Definition send_ok (g : cfg) (s : state) (r : rloanrec) : Prop := send_okb g s r = true.
 Lemma rt_rloan_send : forall g s r, send_ok g s r -> rt_ok s -> rt_ok (rloan_send g s r).
 Proof.
@@ -351,19 +346,6 @@ Qed.
 
 (* the hypothesis on one step: whatever response the step sends goes into a connection of the
    client whose request it answers *)
-Definition step_send_okb (g : cfg) (s : state) (o : op) : bool :=
-  match o with
-  | Aw => match s_rloans s with r :: t => send_okb g (st_rloans s t) r | [] => true end
-  | As a => match nth_opt (s_acts s) a with
-            | Some ar =>
-              match act_loan g (bump_act_seq s (ac_uid ar)) ar (q_hid (ac_msg ar) * 10000 + ac_slot ar * 1000 + ac_seq ar) with
-              | (s2, inr r) => send_okb g s2 r
-              | _ => true
-              end
-            | None => true
-            end
-  | _ => true
-  end.
 Definition step_send_ok (g : cfg) (s : state) (o : op) : Prop := step_send_okb g s o = true.
 
 Lemma step_rt : forall g ord s o, step_send_ok g s o -> rt_ok s -> rt_ok (fst (step g ord s o)).
